@@ -65,6 +65,89 @@ pub fn build_opts(o: &Value) -> Result<TracingOptions, serde_arrow::Error> {
     Ok(t)
 }
 
+type BoolSetter = fn(TracingOptions, bool) -> TracingOptions;
+pub const BOOL_SETTERS: [(&str, BoolSetter); 9] = [
+    ("allow_null_fields", TracingOptions::allow_null_fields),
+    ("map_as_struct", TracingOptions::map_as_struct),
+    ("sequence_as_large_list", TracingOptions::sequence_as_large_list),
+    ("strings_as_large_utf8", TracingOptions::strings_as_large_utf8),
+    ("string_dictionary_encoding", TracingOptions::string_dictionary_encoding),
+    ("coerce_numbers", TracingOptions::coerce_numbers),
+    ("allow_to_string", TracingOptions::allow_to_string),
+    ("guess_dates", TracingOptions::guess_dates),
+    ("enums_without_data_as_strings", TracingOptions::enums_without_data_as_strings),
+];
+
+/// API coverage: the same setting as `build_opts`, reached another way — starting from `TracingOptions::new()`, the
+/// setters called in an order drawn from `seed`, some of them first with the opposite value (the last call decides),
+/// the overwrites (in their own order: a later one for the same path replaces the earlier one) somewhere in between
+pub fn build_opts_perm(o: &Value, seed: u64) -> Result<TracingOptions, serde_arrow::Error> {
+    let b = |k: &str| o[k].as_bool().unwrap_or_else(|| default_opts()[k].as_bool().unwrap());
+    let mut x = Rng::new(seed ^ 0x0A91_C07E);
+    let mut order: Vec<usize> = (0..BOOL_SETTERS.len() + 2).collect();
+    x.shuffle(&mut order);
+    let budget = o["from_type_budget"].as_u64().unwrap_or(100) as usize;
+    let mut t = TracingOptions::new();
+    for i in order {
+        if i < BOOL_SETTERS.len() {
+            let (k, set) = BOOL_SETTERS[i];
+            if x.bool() {
+                t = set(t, !b(k));
+            }
+            t = set(t, b(k));
+        } else if i == BOOL_SETTERS.len() {
+            if x.bool() {
+                t = t.from_type_budget(budget.wrapping_add(1 + x.usize(5)));
+            }
+            t = t.from_type_budget(budget);
+        } else if let Some(ows) = o["overwrites"].as_array() {
+            for ow in ows {
+                // the path as an owned String, the field as a marrow `Field` value (any `Serialize` is accepted)
+                let f = &ow[1];
+                let field = Field {
+                    name: f["name"].as_str().unwrap().to_string(),
+                    data_type: crate::schema_dump::dt_from_json(&json!({"t": f["dt"]})),
+                    nullable: f["nullable"].as_bool().unwrap(),
+                    metadata: Default::default(),
+                };
+                t = t.overwrite(ow[0].as_str().unwrap().to_string(), field)?;
+            }
+        }
+    }
+    Ok(t)
+}
+
+/// API coverage: the same setting through the PUBLIC FIELDS of `TracingOptions` (overwrites only have the method)
+pub fn build_opts_fields(o: &Value) -> Result<TracingOptions, serde_arrow::Error> {
+    let b = |k: &str| o[k].as_bool().unwrap_or_else(|| default_opts()[k].as_bool().unwrap());
+    let mut t = TracingOptions::new();
+    t.allow_null_fields = b("allow_null_fields");
+    t.map_as_struct = b("map_as_struct");
+    t.sequence_as_large_list = b("sequence_as_large_list");
+    t.string_as_large_utf8 = b("strings_as_large_utf8");
+    t.string_dictionary_encoding = b("string_dictionary_encoding");
+    t.coerce_numbers = b("coerce_numbers");
+    t.allow_to_string = b("allow_to_string");
+    t.guess_dates = b("guess_dates");
+    t.enums_without_data_as_strings = b("enums_without_data_as_strings");
+    t.from_type_budget = o["from_type_budget"].as_u64().unwrap_or(100) as usize;
+    if let Some(ows) = o["overwrites"].as_array() {
+        for ow in ows {
+            t = t.overwrite(ow[0].as_str().unwrap(), overwrite_field_json(&ow[1]))?;
+        }
+    }
+    Ok(t)
+}
+
+/// the public fields of a `TracingOptions` value, under the names of the setters
+pub fn opts_dump(t: &TracingOptions) -> Value {
+    json!({"allow_null_fields": t.allow_null_fields, "map_as_struct": t.map_as_struct, "sequence_as_large_list": t.sequence_as_large_list,
+           "strings_as_large_utf8": t.string_as_large_utf8, "string_dictionary_encoding": t.string_dictionary_encoding,
+           "coerce_numbers": t.coerce_numbers, "allow_to_string": t.allow_to_string, "guess_dates": t.guess_dates,
+           "enums_without_data_as_strings": t.enums_without_data_as_strings, "from_type_budget": t.from_type_budget,
+           "overwrites_default": t.overwrites == serde_arrow::schema::Overwrites::default()})
+}
+
 pub fn fields_json(fields: &[Field]) -> Value {
     Value::Array(fields.iter().map(field_to_json).collect())
 }
